@@ -116,8 +116,9 @@ def slices(prop, tier, seed):
         S.append(("S-adv-cond", W.s_adv_cond(seed, bound=1 if not th else 2,
                                              templates=None if th else
                                              ("if2", "seq", "side"))))
-        if th:
-            S.append(("S-closed", W.s_closed(g, seed)))
+        # closed-loop release: the next instance is *declared* to start 1us after the
+        # previous one finished
+        S.append(("S-closed", W.s_closed(g if th else g3, seed)))
     elif prop == "C03":
         S += dag(gp, gp, seed, th)
         S.append(("S-time", W.s_time({"EDF": gp["EDF"], "LSF": gp["LSF"]}
@@ -260,7 +261,7 @@ REQUIRED = {
             "cancelled_graphs", "scheduler_rows"),
 }
 
-BUDGET = {"quick": 240, "thorough": 2400}
+BUDGET = {"quick": 240, "thorough": 900}
 TAPE_BOUND = {"quick": 1, "thorough": 2}  # planners; greedy policies one less
 
 
